@@ -16,7 +16,8 @@ import sys
 
 VERIF = os.path.dirname(os.path.dirname(os.path.abspath(__file__)))
 SEED = os.path.join(VERIF, "seeded")
-WT = "/tmp/confirm"
+WT = os.environ.get("CONFIRM_WT", "/tmp/confirm")   # CONFIRM_WT=/repo uses /repo/_build (only when
+# nothing else is running against /repo; the patch is reverted after each change)
 AREA = {
     "C01": "celeritas/(phys|global|track|em/|user)", "C02": "celeritas/(track|global|user)",
     "C03": "orange/", "C04": "celeritas/(em/|phys)", "C05": "celeritas/(phys|global|track|field|geo)",
